@@ -764,6 +764,9 @@ def cap_products(case, sep, cap, max_states=150, max_trans=2500):
     entries created stays the same, so later indices keep their meaning)."""
     toks = case.split(" ")
     head, steps = toks[0], toks[1:]
+    pre = []
+    if head in ("bddh", "bddpre"):
+        pre, steps = steps[:1], steps[1:]
     level, size = [], []
     out = []
     for st in steps:
@@ -805,7 +808,7 @@ def cap_products(case, sep, cap, max_states=150, max_trans=2500):
                 a, b = size[ix(1)]
                 size[ix(1)] = (a + 4, b + (8 if op == "loadinto" else 1))
         out.append(st)
-    return " ".join([head] + out)
+    return " ".join([head] + pre + out)
 
 # ---------------------------------------------------------------- labelled transition systems
 def g_lts(rng):
@@ -1456,11 +1459,12 @@ from gen_glue import g_glue
 from gen_cliargs import g_cliargs
 from gen_ltsutil import g_ltsutil
 from gen_nfas import g_nfas
+from gen_bddwild import g_bddpre
 
 
 GENERATORS = {
     "apisweep": g_apisweep,
-    "ordvec": g_ordvec, "achain": g_achain, "bddsim": g_bddsim, "binrel": g_binrel, "cacheh": g_cacheh, "glue": g_glue, "cliargs": g_cliargs, "ltsutil": g_ltsutil, "nfas": g_nfas,
+    "ordvec": g_ordvec, "achain": g_achain, "bddsim": g_bddsim, "binrel": g_binrel, "cacheh": g_cacheh, "glue": g_glue, "cliargs": g_cliargs, "ltsutil": g_ltsutil, "nfas": g_nfas, "bddpre": g_bddpre,
     **{k: mk_cliop(v) for k, v in CLIOPS.items()},
     "meta": g_meta, "metaf": g_metaf,
     "parse": g_parse,
@@ -1479,7 +1483,7 @@ def _capped(g, sep, cap):
     return lambda rng: cap_products(g(rng), sep, cap)
 
 
-for _k, _sep, _cap in [("nfah_ops", ":", 2), ("nfah_hist", ":", 2), ("tah_hist", "!", 1), ("nfas", ":", 2)]:
+for _k, _sep, _cap in [("nfah_ops", ":", 2), ("nfah_hist", ":", 2), ("tah_hist", "!", 1), ("nfas", ":", 2), ("bddpre", "!", 1)]:
     GENERATORS[_k] = _capped(GENERATORS[_k], _sep, _cap)
 
 
